@@ -286,6 +286,15 @@ func init() {
 				cl := int64(1) << uint(1+rng.IntN(47))
 				c1, c3 = rng.Int64N(2*cl)-cl, rng.Int64N(2*cl)-cl
 			}
+			if i%16 == 5 || i%16 == 6 {
+				// timestamps on both sides of the last instant whose Unix time in nanoseconds fits into int64
+				// (2262-04-11T23:47:16.854775807Z), offsets and delays small or moderate
+				base = 9223372036 - rng.Int64N(3)
+				if i%16 == 6 {
+					lim2 := int64(1) << uint(10+rng.IntN(24))
+					theta, d, c1, c3 = rng.Int64N(2*lim2)-lim2, rng.Int64N(lim2), rng.Int64N(lim2), rng.Int64N(lim2)
+				}
+			}
 			proc := rng.Int64N(1e9)
 			// client clock C, server clock S = C + theta
 			t0 := time.Unix(base, rng.Int64N(1e9)).UTC()
